@@ -239,6 +239,32 @@ theorem path_reresolves_as (f : Bool) {d n : Node} {c : Ctx} {ss : List Sec} (hd
   exact List.map_congr_left (fun x _ => eseg_ofSeg x)
 
 open Ypv.Acc in
+/-- **path_reresolves, a path that names the node by an anchor several children bear** ("once per place
+it is aliased").  The last step is named `[&a]`; the steps before it satisfy the hypotheses of
+`path_reresolves`.  Then `str(result.path)`, parsed and evaluated from the root, selects exactly the
+children of the parent that bear the anchor `a`, in document order — and the result's node, at its
+address, is one of them. -/
+theorem path_reresolves_aliased {d n0 n : Node} {c0 : Ctx} {ss0 : List Sec} {r : Ref} {pr : PRef} {a : Str}
+    (hd : d.WF) (hc : W1.docClear d = true) (hl0 : LocP d n0 c0 ss0) (hch : n0.child? r = some n)
+    (hp : prefOk n0 pr r) (hs : StepSec n0 n pr (.anc a)) (hok : (ss0 ++ [Sec.anc a]).all Sec.ok = true)
+    (hal : aloneAlong d c0.addr ss0 = true) (mt' : Matcher) (dsc' : Desc) :
+    ∃ S sg c1 c', reported (c0.child r pr (Sec.anc a).mtext) = .ok S ∧ parse true S = .ok sg ∧
+      c1.addr = c0.addr ∧
+      required mt' dsc' d (sg.map ESeg.ofSeg) (.real (d, Ctx.root)) =
+        Gen.ofList (((anchorKids a n0 c1).filter (fun nc => nc.1.anchor == some a)).map Res.real) ∧
+      (n, c') ∈ (anchorKids a n0 c1).filter (fun nc => nc.1.anchor == some a) ∧
+      c'.addr = c0.addr ++ [r] := by
+  have hl : LocP d n (c0.child r pr (Sec.anc a).mtext) (ss0 ++ [.anc a]) := LocP.child r pr _ n hl0 hch hp hs
+  have hok' : ∀ x ∈ ss0 ++ [Sec.anc a], x.ok = true := List.all_eq_true.mp hok
+  obtain ⟨_, S, h2, h3⟩ := reported_steps _ _ hl.path.1 hok'
+  obtain ⟨c1, h4, h5⟩ := resolve_steps_aliased mt' dsc' hd hc hl0 hal a
+  obtain ⟨c', h6, h7⟩ := bearer_mem c1 hch hp hs
+  refine ⟨S, _, c1, c', h2, h3, h4, ?_, h6, by rw [h7, h4]⟩
+  rw [List.map_map, ← h5]
+  congr 1
+  exact List.map_congr_left (fun x _ => eseg_ofSeg x)
+
+open Ypv.Acc in
 /-- **path_reresolves for the results of a query**: `str(result.path)` as it is, and after the
 separator was set to either notation. -/
 theorem path_reresolves_query {d : Node} (hd : d.WF) (hc : W1.docClear d = true) (segs : List ESeg)
